@@ -48,4 +48,20 @@ def replay(model, obligation):
     m_add, m_rem = re.search(r'\+ %\((\d+)\)s', str(s)), re.search(r'- %\((\d+)\)s', str(s))
     if not (m_add and m_rem and ctx[m_add.group(1)] == {4} and ctx[m_rem.group(1)] == {2}):
         fails.append('SetUpdateClause {1,2} -> {1,4}: %s binds %r' % (str(s), ctx))
+    # a DELETE with a two-key map delete followed by a where clause (what _delete_null_columns builds)
+    d2 = st.DeleteStatement('t')
+    d2.add_field(st.MapDeleteClause('m', {}, {'a': 1, 'b': 2}))
+    d2._add_where_clause(st.WhereClause('pk', ops.EqualsOperator(), 'PK'))
+    ids = PH.findall(str(d2))
+    ctx = d2.get_context()
+    if len(ids) != len(set(ids)) or sorted(ids) != sorted(ctx) or 'PK' not in [getattr(v, 'value', v) for v in ctx.values()]:
+        fails.append('DELETE with a two-key map delete and a WHERE: %s binds %r' % (str(d2), ctx))
+    for cls, args in ((st.ListUpdateClause, ('l', [0, 1, 2, 3], None, [1, 2])), (st.MapUpdateClause, ('m', {'a': 1, 'b': 2}, None, {'a': 9}))):
+        c = cls(*args)
+        c.set_context_id(4)
+        n = c.get_context_size()
+        ctx = {}
+        c.update_context(ctx)
+        if sorted(PH.findall(str(c))) != sorted(ctx) or len(ctx) != n or sorted(ctx) != [str(i) for i in range(4, 4 + n)]:
+            fails.append('%s%r: size %d, binds %r, renders %s' % (cls.__name__, args, n, ctx, str(c)))
     return {'reproduced': bool(fails), 'detail': '; '.join(fails[:2]) or 'no disagreement on the stock shapes'}
